@@ -138,7 +138,7 @@ func runC12(c *Ctx) {
 	if fn := c.Fn("types", "ValidatorSet", "shiftByAvgProposerPriority"); fn != nil {
 		ok := false
 		for _, in := range findInstrs(fn, StoreTo(`\.ProposerPriority$`)) {
-			ok = re(`^call:types\.safeSubClip\(vs\.Validators\[.*\]\.ProposerPriority, call:`+vsT+`\.computeAvgProposerPriority\(vs\)\)$`).MatchString(pathOf(in.(*ssa.Store).Val))
+			ok = re(`^call:types\.safeSubClip\(vs\.Validators\[.*\]\.ProposerPriority, call:` + vsT + `\.computeAvgProposerPriority\(vs\)\)$`).MatchString(pathOf(in.(*ssa.Store).Val))
 		}
 		c.Check("F", fnName(fn)+"/subtracts the average from every priority", ok, fn.Pos(), 1, "")
 	}
@@ -153,7 +153,7 @@ func runC12(c *Ctx) {
 			if v == "-(updatedTotalVotingPower + (updatedTotalVotingPower >> const:3))" {
 				okNew = true
 			}
-			if re(`^call:`+vsT+`\.GetByAddress\(vs, .*\)#1\.ProposerPriority$`).MatchString(v) {
+			if re(`^call:` + vsT + `\.GetByAddress\(vs, .*\)#1\.ProposerPriority$`).MatchString(v) {
 				okOld = true
 			}
 		}
@@ -213,7 +213,10 @@ func runC12(c *Ctx) {
 			c.Check("F", fnName(fn)+"/sorts a copy of the input", strings.Contains(callPath(callCommon(in)), "call:types.validatorListCopy(origChanges)"), instrPos(in), 1, describeInstr(in))
 		}
 		maxP := c.P.Const("types", "MaxTotalVotingPower")
-		app := func(in ssa.Instruction) bool { cc := callCommon(in); return cc != nil && calleeNameNoPath(cc) == "append" }
+		app := func(in ssa.Instruction) bool {
+			cc := callCommon(in)
+			return cc != nil && calleeNameNoPath(cc) == "append"
+		}
 		c.Guarded(fn, "accept a change (append)", app,
 			G("not a duplicate of the previous address", False(`^call:\(lib/common\.Address\)\.Equal\(.*\.Address, .*\)$`)),
 			G("power >= 0", Cmp(`\.VotingPower$`, ">=", `^const:0$`)),
